@@ -252,6 +252,10 @@ def make_program(rnd, n_pos, name="M0", module="simgen_m0", pyname=None, collide
             m["wrapped"] = True
         elif r < 0.4 and c.startswith("L0."):
             m["partial"] = True
+        elif r < 0.5:
+            # ``def cb(*args, **kw)`` without an explicit self
+            m["sig"] = [P("args", "var"), P("kw", "varkw")]
+            m["noself"] = True
     for m in prog["cbs"].values():
         if m["group"] == "enter":
             # the initial activation carries no arguments: every parameter needs another source
